@@ -14,6 +14,7 @@ table() {
     C07) echo "qbftsim exploration 1200 170 40000 1800";;
     C17) echo "qbftsim exploration 6000 150 200000 1200";;
     C14) echo "queuesim exploration 40000 120 1500000 1200";;
+    C13) echo "elsim exploration 20000 120 400000 1200";;
     *) return 1;;
   esac
 }
